@@ -202,6 +202,11 @@ func allCommands() [][]string {
 			cmds = append(cmds, []string{"publish", "-gedcom", "{in}", "-output-dir", "{outdir}", "-living", vis, no, "-jobs", "2"})
 		}
 		cmds = append(cmds, []string{"publish", "-gedcom", "{in}", "-output-dir", "{outdir}", "-living", vis, "-no-individuals", "-no-places", "-no-families", "-no-surnames", "-no-sources"})
+		// an output directory that does not exist: every write fails, for every worker ("terminate
+		// with output or an error message")
+		for _, jobs := range []string{"1", "3", "8"} {
+			cmds = append(cmds, []string{"publish", "-gedcom", "{in}", "-output-dir", "{outdir}/missing/deeper", "-living", vis, "-jobs", jobs})
+		}
 	}
 	for _, show := range []string{"all", "only-matches", "subset"} {
 		for _, sort := range []string{"written-name", "highest-similarity"} {
@@ -327,7 +332,7 @@ func TestCheckCLI(t *testing.T) {
 	e := env{cli, dir}
 	cmds := allCommands()
 	s := harness.NewSub("cli-on-faulted-files",
-		fmt.Sprintf("random family graphs (wild dates, identifiers, sources) perturbed by 0..3 (thorough 0..5) structural faults from %d kinds (dangling / wrong-kind / empty HUSB-WIFE-CHIL, no or empty NAME, odd surnames incl. digits, symbols, multi-byte and invalid UTF-8, self-parent, self-spouse, cyclic parents, duplicate pointers, person and family sharing a pointer, empty family, source without title, odd dates, dangling FAMS/FAMC, duplicate child, no people, empty sub-records, a person named like a place of the file or people and places without any Latin letter, source pointers that are not plain identifiers); every file the decoder accepts is given to the built gedcom binary with a rotating third of %d command lines (warnings; publish x 3 visibilities x page-group switches x jobs; diff x show x sort; query x 20 documented-style queries x 5 formats; two-document queries); oracle: exit 0, or exit 1 with an ERROR: line; no panic / fatal error / goroutine dump; no hang; every distinct crash signature of a run is kept; non-trivial = at least one fault and two people", len(faultKinds), len(cmds)))
+		fmt.Sprintf("random family graphs (wild dates, identifiers, sources) perturbed by 0..3 (thorough 0..5) structural faults from %d kinds (dangling / wrong-kind / empty HUSB-WIFE-CHIL, no or empty NAME, odd surnames incl. digits, symbols, multi-byte and invalid UTF-8, self-parent, self-spouse, cyclic parents, duplicate pointers, person and family sharing a pointer, empty family, source without title, odd dates, dangling FAMS/FAMC, duplicate child, no people, empty sub-records, a person named like a place of the file or people and places without any Latin letter, source pointers that are not plain identifiers); every file the decoder accepts is given to the built gedcom binary with a rotating third of %d command lines (warnings; publish x 3 visibilities x page-group switches x jobs, also into an output directory that does not exist; diff x show x sort; query x 20 documented-style queries x 5 formats; two-document queries); oracle: exit 0, or exit 1 with an ERROR: line; no panic / fatal error / goroutine dump; no hang; every distinct crash signature of a run is kept; non-trivial = at least one fault and two people", len(faultKinds), len(cmds)))
 	s.Rapid(t, harness.Share(harness.Pick(1500, 50000)), 140, func(rt *rapid.T) {
 		g, faults := genDoc(rt)
 		offset := rapid.IntRange(0, 2).Draw(rt, "cmdOffset")
